@@ -3,6 +3,7 @@ package main
 import (
 	"math/rand"
 
+	posCrypto "github.com/pokt-network/pocket-core/crypto"
 	sdk "github.com/pokt-network/pocket-core/types"
 	authTypes "github.com/pokt-network/pocket-core/x/auth/types"
 	nodesTypes "github.com/pokt-network/pocket-core/x/nodes/types"
@@ -125,6 +126,41 @@ func sendTx(s *chainsim.Sim, rng *rand.Rand, entropy int64) sentTx {
 	return sentTx{bz, abs}
 }
 
+// multiTx: a send from the 2-member multi-signature account "m1" with varied fee (the ante
+// handler does not apply the minimum-fee check to multi-signature keys), member order
+// and completeness.
+func multiTx(s *chainsim.Sim, rng *rand.Rand, entropy int64, members []int) sentTx {
+	keys := []posCrypto.PrivateKey{s.Keys[members[0]], s.Keys[members[1]]}
+	from := chainsim.MultiAddr(keys)
+	fee := []int64{1, 5000, 10000, 10000}[rng.Intn(4)]
+	o := chainsim.TxOpts{Fee: fee, Entropy: entropy, Multi: keys, Signer: keys[0]}
+	sigOK := true
+	switch rng.Intn(5) {
+	case 0:
+		o.MultiSignOrder = []int{1, 0} // signatures in the wrong order
+		sigOK = false
+	case 1:
+		o.MultiSignOrder = []int{0} // one member missing
+		sigOK = false
+	case 2:
+		o.MultiSignOrder = []int{0, 0} // the same member twice
+		sigOK = false
+	}
+	amount := 1 + rng.Int63n(1000)
+	to := s.Addr(rng.Intn(7))
+	msg := &nodesTypes.MsgSend{FromAddress: from, ToAddress: to, Amount: sdk.NewInt(amount)}
+	bz := s.SignTx(msg, o)
+	abs := s.SigFields(o, -1)
+	abs["signer"] = "m1"
+	abs["multisig"] = true
+	abs["sigOK"] = sigOK
+	abs["kind"] = "send"
+	abs["from"] = "m1"
+	abs["to"] = s.Name(to)
+	abs["amount"] = amount
+	return sentTx{bz, abs}
+}
+
 // traceAuth records chains of blocks full of send transactions (C14-C18).
 func traceAuth(out string, nTraces, blocks int) {
 	tw, err := hx.NewTraceWriter(out)
@@ -137,8 +173,12 @@ func traceAuth(out string, nTraces, blocks int) {
 		s := chainsim.New(stdConfig(hx.Seed()*1000 + int64(t)))
 		r := chainsim.NewRecorder(s, tw)
 		r.Focus = []string{"h", "bal", "supply", "nopk", "badCoins"}
+		members := []int{7, 8}
+		maddr := chainsim.MultiAddr([]posCrypto.PrivateKey{s.Keys[7], s.Keys[8]})
+		s.Names[maddr.String()] = "m1"
 		r.Reset("auth")
 		var history []sentTx
+		funded := false
 		entropy := int64(1)
 		for b := 0; b < blocks; b++ {
 			r.BeginBlock(chainsim.BlockOpts{})
@@ -165,6 +205,18 @@ func traceAuth(out string, nTraces, blocks int) {
 						entropy++
 						tx = sendTx(s, rng, entropy)
 					}
+				case !funded && b >= 2:
+					// fund the multi-signature account with an ordinary send from a1
+					entropy++
+					o := chainsim.TxOpts{Fee: 10000, Entropy: entropy, Signer: s.Keys[0]}
+					msg := &nodesTypes.MsgSend{FromAddress: s.Addr(0), ToAddress: maddr, Amount: sdk.NewInt(2000000)}
+					abs := s.SigFields(o, 0)
+					abs["kind"], abs["from"], abs["to"], abs["amount"] = "send", "a1", "m1", int64(2000000)
+					tx = sentTx{s.SignTx(msg, o), abs}
+					funded = true
+				case funded && rng.Intn(5) == 0:
+					entropy++
+					tx = multiTx(s, rng, entropy, members)
 				default:
 					entropy++
 					tx = sendTx(s, rng, entropy)
